@@ -6,6 +6,7 @@ from __future__ import annotations
 
 import dataclasses
 import itertools
+import math
 import pickle
 
 import orjson
@@ -28,6 +29,7 @@ PROP = "C17"
 INTS = [0, 1, 255, 256, 2**31 - 1, 2**31, 2**32 - 1, 2**32, 2**40, 2**63 - 1]
 STRS = ["", "a", "k" * 24, "cloudpickle.loads", "x" * 1000]
 NON_ASCII = "klüç"
+FLOAT_STATICS = {"half": 0.5, "negzero": -0.0, "max": 1.7976931348623157e308, "inf": float("inf"), "neginf": float("-inf"), "nan": float("nan")}
 LONG_LENGTHS = [100, 255, 256, 257, 511, 512, 513, 1023, 1024, 1025, 4096, 65535, 65536, 70000]
 
 
@@ -339,6 +341,11 @@ def run_jobjson(acc: Acc, maxn: int):
                 specs.append(make_spec(n, es, v))
     specs.append(simple_job("mixed-kw", 3, [(0, 2), (1, 2)], "all", kw_edges=[(1, 2)]))
     specs.append(simple_job("gpu", 2, [(0, 1)], "sinks", gpu=[1]))
+    # float statics: ordinary, negative zero, the largest finite double, and the non-finite ones JSON has no token for
+    for fname, fval in FLOAT_STATICS.items():
+        sp = simple_job(f"float-static/{fname}", 1, [], "sinks")
+        sp.tasks["t0"]["kw"]["v"] = fval
+        specs.append(sp)
     for spec in specs:
         acc.n += 1
         job = spec.build()
@@ -347,9 +354,22 @@ def run_jobjson(acc: Acc, maxn: int):
             job.serdes = {"enc": ("mod.ser", "mod.des")}
         try:
             raw = orjson.dumps(job.dict())
+        except Exception as e:
+            if spec.name.startswith("float-static/") and not math.isfinite(FLOAT_STATICS[spec.name.split("/")[1]]):
+                continue  # rejected at encode time: what the statement asks for values the encoding cannot carry
+            acc.bad("jobjson_raised", type(e).__name__, f"{spec.name}: {e!r}"[:300], {"family": "jobjson", "spec": spec.describe()})
+            continue
+        try:
             back = JobInstance(**orjson.loads(raw))
         except Exception as e:
             acc.bad("jobjson_raised", type(e).__name__, f"{spec.name}: {e!r}"[:300], {"family": "jobjson", "spec": spec.describe()})
+            continue
+        if spec.name.startswith("float-static/"):
+            want, got = FLOAT_STATICS[spec.name.split("/")[1]], back.tasks["t0"].static_input_kw.get("v")
+            if not (isinstance(got, float) and (got == want or (want != want and got != got)) and math.copysign(1, got) == math.copysign(1, want)):
+                cause = "a non-finite float is neither carried nor rejected at encode time: it silently becomes null" if not math.isfinite(want) else "a finite float static changed"
+                acc.bad("jobjson_mismatch", cause, f"{spec.name}: {want!r} -> {got!r}", {"family": "jobjson", "spec": spec.name})
+            acc.nontrivial.add(spec.name)
             continue
         ok = (
             list(back.tasks) == list(job.tasks)
